@@ -233,7 +233,12 @@ class Engine:
 
             if not fault:
                 exp = _with_base_url(base["outcome"], r["base_url"])
-                if out != exp:
+                if out != exp and exp[0] == "exc" and out[0] == "exc" and "RecursionError" not in (exp[1], out[1]):
+                    # both schedules fail: "the load fails with an error" - which error class a damaged file is
+                    # refused with is not part of the property (it can depend on whether the decompressor or the
+                    # decoder meets its damage first); resource exhaustion that depends on chunking still is
+                    count("both_raise_with_different_error_classes")
+                elif out != exp:
                     ch, d = _classify_chunk_diff(exp, out)
                     violate("O-CHUNK", ch, case=ci, cuts=cuts[:40], n_cuts=len(cuts), bufsize=case["bufsize"],
                             via=case["via"], **d)
